@@ -6,6 +6,7 @@ import datetime as dt
 import itertools
 import json
 
+from harness.props.c03 import standalone_first_candidates
 from harness import common as C
 from harness import gen, model, ref
 from harness.model import T
@@ -132,6 +133,10 @@ def run_default(ctx: C.Ctx):
         # first step — in one of the orders  A: D L dump load   B: D dump L load   C: L load D dump   D: L D load dump.
         # Every setting is bound before the first operation it governs, so the documented outcome is that of the declared Meta.
         binding = rng.choice(['declared', 'declared', 'declared', 'A', 'B', 'B', 'C', 'D']) if m_r else 'declared'
+        # ---- history: the nested class is dumped on its own (as a main class) before the first dump of the root.  Only in the direction
+        # "nested first" and only for classes whose stand-alone use leaves nothing behind that the recorded finding
+        # `shared-nested-config-leak` covers (see harness/props/c03.py: standalone_first_candidates).
+        pre_alone = rng.random() < 0.35
         if binding == 'B' and m_r.get('auto_assign_tags') and shape == 'two-levels':
             # unchanged-code finding (findings/dump-first-auto-tags-stale-nested-loaders.md): a dump of a root with auto_assign_tags caches the
             # field parsers of the intermediate class, so load settings bound afterwards never reach a class two levels down
@@ -166,6 +171,17 @@ def run_default(ctx: C.Ctx):
             src = dict(src=built.source)
             exp = ref.RefEncoder(built.infos).enc_inst(x, None, None, None, top=True)
             state = {'d': None}
+            if pre_alone and binding == 'declared' and ncls['info']['name'] in standalone_first_candidates(root):
+                ctx.count('history:nested-alone-first')
+                case['history'] = 'nested-alone-first'
+                try:
+                    d0 = asdict(nv)
+                    e0 = ref.RefEncoder(built.infos).enc_inst(nv, None, None, None, top=True)
+                    src['src'] += '\nasdict(<nested instance>)   # on its own, before the root'
+                    if not ref.same_typed(d0, e0):
+                        ctx.fail('cascade:alone', case, f'the nested class dumped on its own gives {d0!r}, its own Meta gives {e0!r}'[:1000], detail=src)
+                except Exception as e:
+                    ctx.fail('cascade:alone', case, f'asdict of the nested instance on its own raised {e!r}', detail=src)
 
             def bind(part, first):
                 keys = DUMP_KEYS if part == 'D' else LOAD_KEYS
